@@ -57,7 +57,14 @@ def run(tier, seed):
     if rd['violated']:
         raise vlib.HarnessTrouble("Paths.tla (decoy shape): the modelled guards do not confine:\n" + rd['violation_text'][:1500])
     resd = vlib.run_vh_sharded(['paths-jail', '-edges', epd, '-variants', '3'], shards, timeout=2400)
-    res = vlib.merge_results([res, resd])
+    # paths that climb out only behind 64 harmless components (a guard that looks at a bounded number of components)
+    epp = os.path.join(work, "paths_deep.ndjson")
+    rp = vlib.run_tlc('Paths', dict(constants=dict(MaxLen=5, GuardAllFields=True, BeginByKey=False, Shape='"deep"'), invariants=['Confined'], action_constraint='Emit'),
+                      workers=4, edges_path=epp, timeout=600)
+    if rp['violated']:
+        raise vlib.HarnessTrouble("Paths.tla (deep shape): the modelled guards do not confine:\n" + rp['violation_text'][:1500])
+    resp = vlib.run_vh_sharded(['paths-jail', '-edges', epp, '-variants', '1'], shards, timeout=2400)
+    res = vlib.merge_results([res, resd, resp])
     for viol in res['violations']:
         v.violation(viol['sig'], viol.get('replay'))
     # the application level: hostile root names in the signaling offer against the real `thru join` in a jail
